@@ -104,7 +104,11 @@ def main():
     for v in ctx.violations:
         hit = None
         for f in mine:
-            if mod.matches_finding(v, f):
+            try:
+                matched = mod.matches_finding(v, f)
+            except Exception:  # noqa: BLE001 - a violation of another shape than the finding's predicate expects: not that finding
+                matched = False
+            if matched:
                 hit = f
                 break
         if hit is None:
